@@ -168,21 +168,6 @@ static std::set<unsigned> os_indexes(hwloc_topology_t t, hwloc_obj_type_t ty) { 
 // Excluded by construction (counted): when the loaded topology shows the stale field, the complete_cpuset of memory objects
 // is left out of the reload comparison.  The named case F-C18-a keeps the strict comparison.
 static bool g_strict_ccs = false;
-static bool memchild_ccs_stale(hwloc_topology_t t) {
-  for (auto o : all_objs(t)) if (hwloc_obj_type_is_memory(o->type)) { hwloc_obj_t p = o->parent; while (p && hwloc_obj_type_is_memory(p->type)) p = p->parent; if (p && !hwloc_bitmap_isequal(o->complete_cpuset, p->complete_cpuset)) return true; }
-  return false;
-}
-static std::string mask_mem_ccs(const std::string &dump) {
-  std::string out; size_t i = 0;
-  while (i < dump.size()) {
-    size_t e = dump.find('\n', i); if (e == std::string::npos) e = dump.size(); std::string line = dump.substr(i, e - i); i = e + 1;
-    size_t f = line.find_first_not_of(' ');
-    if (f != std::string::npos && (line.compare(f, 9, "NUMANode ") == 0 || line.compare(f, 9, "MemCache ") == 0)) { size_t a = line.find(" ccs={"); if (a != std::string::npos) { size_t b = line.find('}', a); if (b != std::string::npos) line.replace(a, b + 1 - a, " ccs=*"); } }
-    out += line; out += '\n';
-  }
-  return out;
-}
-
 static void run_snapshot_case(Case &c, const Snapshot &s, TopoSpec sp, const std::vector<unsigned> &removed) {
   sp.fsroot = s.fsroot; sp.cpuid = s.cpuid; sp.snapname = s.id;
   if (sp.components == "linux,stop") sp.cpuid.clear(); if (sp.components == "x86,stop") sp.fsroot.clear();
